@@ -12,9 +12,9 @@ import (
 func init() {
 	register(&Property{
 		ID:          "C09",
-		Explanation: "Decided for all paths: a verifyFuture is answered nil only on the leaderLoop arm where votes >= quorumSize (quorumSize != 0), or directly when the voter quorum is 1; quorumSize is the voter-majority of the latest configuration (folded for 0..64 voters); votes starts at 1 and is incremented only by vote(true); vote() notifies at most once; notifyAll(true) is called only after a successful AppendEntries/InstallSnapshot response, notifyAll(false) only on a newer term; the future is registered only with replication routines of voters.",
-		NotDecided:  "real-time freshness of each acknowledgement relative to the call (an ack produced by a request sent before the call still counts).",
-		RuleText:    "C09.R1 writer tables of votes/quorumSize; R2 guard of respond(nil); R3 guard of the registration map store; R4 notifyAll callers and arguments; R5 single notification in vote().",
+		Explanation: "Decided for all paths: a verifyFuture is answered nil only on the leaderLoop arm where votes >= quorumSize (quorumSize != 0), or directly when the voter quorum is 1; quorumSize is the voter-majority of the latest configuration (folded for 0..64 voters); votes starts at 1 and is incremented only by vote(true); vote() notifies at most once; notifyAll(true) is called only after a successful AppendEntries/InstallSnapshot response, notifyAll(false) only on a newer term; the future is registered only with replication routines of voters; notifyAll hands the waiting set over before voting; the set a request may vote for must be captured before the request is sent (R7 – violated at all four request sites on the pinned tree: known findings, reproduced).",
+		NotDecided:  "wall-clock freshness beyond the structural send-after-registration condition.",
+		RuleText:    "C09.R1 writer tables of votes/quorumSize; R2 guard of respond(nil); R3 guard of the registration map store; R4 notifyAll callers and arguments; R5 single notification in vote(); R6 take-before-vote in notifyAll; R7 capture-before-send at the request sites.",
 		Run:         c09,
 	})
 }
